@@ -220,6 +220,9 @@ func modelToTape(m []InputVal) []InputVal {
 	for i, iv := range m {
 		v := strings.TrimSpace(iv.Val)
 		switch iv.Kind {
+		case "bigint":
+			// SMT Int model value: 123 or (- 123)
+			v = strings.ReplaceAll(strings.ReplaceAll(strings.ReplaceAll(v, "(", ""), ")", ""), " ", "")
 		case "bool":
 			if v == "true" {
 				v = "1"
